@@ -1,5 +1,5 @@
 """C04 - load, save, load loses nothing; a second save changes nothing (structural clauses)."""
-from ..rules import readers, serial, writers, census
+from ..rules import readers, serial, writers, census, baseline
 
 EXPLANATION = (
     "Static rule checking of 'whenever a text loads it can be serialized' and of the idempotence of the normalisers: R-NULL "
@@ -38,9 +38,13 @@ def c3(ctx):
 def c4(ctx):
     census.mechanism_census(ctx, ["serialize", "__str__", "items", "keys", "values", "__iter__", "__getitem__", "get", "__init__", "_parse", "__setitem__", "update", "setdefault", "move_to_end", "__eq__", "__ne__", "from_str", "from_msd", "_from_msd", "__delitem__", "pop", "popitem", "clear"], "load / save")
 
+def c_api(ctx):
+    baseline.surface(ctx, "C04: documented surface", modules=['simfile.sm', 'simfile.ssc', 'simfile.base', 'simfile._private.serializable'], functions=['simfile:load', 'simfile:loads'])
+
 CLAUSES = [
     ("C04.1", "every loaded value can be serialized (R-NULL over all serializers)", c1),
     ("C04.2", "normalisation is idempotent: keys stored upper-cased, multi-value join/split symmetric", c2),
     ("C04.3", "decorations are whitespace and stripped; only parameters and whitespace are written; layout", c3),
     ("C04.4", "no unexamined override of the writer / reader / mapping methods anywhere in the hierarchy (R-CENSUS)", c4),
+    ("C04.api", "public surface: signatures and defaults, constants, enumerations, blank templates, base classes as confirmed (R-API)", c_api),
 ]
